@@ -804,7 +804,19 @@ pub fn write(w: &DynW, buf: &mut [u8]) -> WOut {
 /// A buffer that looks like a reused send buffer: every byte non-zero and position dependent,
 /// so that a byte the writer forgets is visible to the parser / comparison that follows.
 pub fn dirty(n: usize) -> Vec<u8> {
-    (0..n).map(|i| (i as u8).wrapping_mul(37) | 0x81).collect()
+    dirty_k(n, 0)
+}
+
+/// Three kinds of previous contents (a writer that ORs into, or keeps some bits of, what was there shows with one
+/// and not with another): position-dependent with bits 0 and 7 set; all ones; position-dependent with bits 1..=6
+/// of the first pattern inverted (so that between them every bit of every byte is seen set and clear... except that
+/// all three leave at least one bit set in every byte: a forgotten byte never looks like a convenient zero).
+pub fn dirty_k(n: usize, k: usize) -> Vec<u8> {
+    match k % 3 {
+        0 => (0..n).map(|i| (i as u8).wrapping_mul(37) | 0x81).collect(),
+        1 => vec![0xff; n],
+        _ => (0..n).map(|i| ((i as u8).wrapping_mul(37) ^ 0x7e) | 0x24).collect(),
+    }
 }
 
 /// Build `cfg` and write it into an exact-size (dirty) buffer.
@@ -824,7 +836,9 @@ fn build_bytes_in(cfg: &Cfg, how: How, dirty_buffer: bool) -> Result<Vec<u8>, WO
             if n > (1 << 26) {
                 return Err(WOut::Ok(n));
             }
-            let mut buf = if dirty_buffer { dirty(n) } else { vec![0u8; n] };
+            // which kind of previous contents: a function of the case (size and route), so that a replay sees the same
+            let k = n / 4 + how.owned as usize + 2 * how.wrap as usize + how.probe as usize + how.reconf as usize;
+            let mut buf = if dirty_buffer { dirty_k(n, k) } else { vec![0u8; n] };
             match write(w, &mut buf) {
                 WOut::Ok(m) if m == n => Ok(buf),
                 WOut::Ok(m) => Err(WOut::WrongSize { announced: n, written: m }),
